@@ -30,6 +30,12 @@ fn programs(n: usize, seed: u64) -> Vec<Value> {
         json!([{"op": "log", "t": [1, 2, 3, 4]}, {"op": "log", "t": []}, {"op": "create"}, {"op": "create"}]),
         json!([{"op": "sstore", "s": 9, "v": 9}, {"op": "revert"}]),
         json!([{"op": "burn", "n": 2}, {"op": "invalid"}]),
+        // long calldata, zero-heavy and not, in front of a callee that does (almost) nothing: the need is intrinsic gas
+        json!([{"op": "pad", "n": 700, "b": 0}]),
+        json!([{"op": "pad", "n": 4000, "b": 0}]),
+        json!([{"op": "pad", "n": 2500, "b": 255}]),
+        json!([{"op": "sstore", "s": 1, "v": 1}, {"op": "pad", "n": 3000, "b": 0}]),
+        json!([{"op": "log", "t": [1]}, {"op": "pad", "n": 1200, "b": 1}]),
     ];
     let mut rng = StdRng::seed_from_u64(seed);
     while v.len() < n {
@@ -48,6 +54,10 @@ fn programs(n: usize, seed: u64) -> Vec<Value> {
                 }
                 _ => json!({"op": "sstore", "s": rng.random_range(1..4), "v": 1}),
             });
+        }
+        if rng.random_range(0..5) == 0 {
+            let fill = [0u64, 0, 0, 1, 255][rng.random_range(0..5)];
+            ops.push(json!({"op": "pad", "n": rng.random_range(1..5000), "b": fill}));
         }
         if rng.random_range(0..4) == 0 {
             ops.push(json!({"op": "ret", "s": rng.random_range(1..4)}));
